@@ -24,6 +24,7 @@ def parseOp (j : Json) : R Op := do
   | "chain_force_f" => pure (.chainForceF (← natList (← obj j "nodes")) (← natList (← obj j "S")) (← bool j "del")
                             (← natList (← obj j "order")) (← natList (← obj j "failing")))
   | "inspect" => pure (.inspect (← nat j "i"))
+  | "reset" => pure (.reset (← nat j "i"))
   | _ => throw "bad_op"
 
 def optTerm : Option Term → Json
